@@ -73,6 +73,12 @@ Engine/RepAbs.vos Engine/RepAbs.vok Engine/RepAbs.required_vos: Engine/RepAbs.v 
 Engine/RepProofs.vo Engine/RepProofs.glob Engine/RepProofs.v.beautified Engine/RepProofs.required_vo: Engine/RepProofs.v Engine/PositionRep.vo Engine/EncodingProofs.vo
 Engine/RepProofs.vio: Engine/RepProofs.v Engine/PositionRep.vio Engine/EncodingProofs.vio
 Engine/RepProofs.vos Engine/RepProofs.vok Engine/RepProofs.required_vos: Engine/RepProofs.v Engine/PositionRep.vos Engine/EncodingProofs.vos
+Engine/SearchDriver.vo Engine/SearchDriver.glob Engine/SearchDriver.v.beautified Engine/SearchDriver.required_vo: Engine/SearchDriver.v Gen/Consts.vo
+Engine/SearchDriver.vio: Engine/SearchDriver.v Gen/Consts.vio
+Engine/SearchDriver.vos Engine/SearchDriver.vok Engine/SearchDriver.required_vos: Engine/SearchDriver.v Gen/Consts.vos
+Engine/SearchDriverProofs.vo Engine/SearchDriverProofs.glob Engine/SearchDriverProofs.v.beautified Engine/SearchDriverProofs.required_vo: Engine/SearchDriverProofs.v Gen/Consts.vo Engine/SearchDriver.vo
+Engine/SearchDriverProofs.vio: Engine/SearchDriverProofs.v Gen/Consts.vio Engine/SearchDriver.vio
+Engine/SearchDriverProofs.vos Engine/SearchDriverProofs.vok Engine/SearchDriverProofs.required_vos: Engine/SearchDriverProofs.v Gen/Consts.vos Engine/SearchDriver.vos
 Engine/TimeMgr.vo Engine/TimeMgr.glob Engine/TimeMgr.v.beautified Engine/TimeMgr.required_vo: Engine/TimeMgr.v 
 Engine/TimeMgr.vio: Engine/TimeMgr.v 
 Engine/TimeMgr.vos Engine/TimeMgr.vok Engine/TimeMgr.required_vos: Engine/TimeMgr.v 
@@ -82,6 +88,9 @@ Engine/TimeMgrProofs.vos Engine/TimeMgrProofs.vok Engine/TimeMgrProofs.required_
 Gen/BitbaseDump.vo Gen/BitbaseDump.glob Gen/BitbaseDump.v.beautified Gen/BitbaseDump.required_vo: Gen/BitbaseDump.v 
 Gen/BitbaseDump.vio: Gen/BitbaseDump.v 
 Gen/BitbaseDump.vos Gen/BitbaseDump.vok Gen/BitbaseDump.required_vos: Gen/BitbaseDump.v 
+Gen/Consts.vo Gen/Consts.glob Gen/Consts.v.beautified Gen/Consts.required_vo: Gen/Consts.v 
+Gen/Consts.vio: Gen/Consts.v 
+Gen/Consts.vos Gen/Consts.vok Gen/Consts.required_vos: Gen/Consts.v 
 Gen/MagicData.vo Gen/MagicData.glob Gen/MagicData.v.beautified Gen/MagicData.required_vo: Gen/MagicData.v 
 Gen/MagicData.vio: Gen/MagicData.v 
 Gen/MagicData.vos Gen/MagicData.vok Gen/MagicData.required_vos: Gen/MagicData.v 
@@ -166,9 +175,15 @@ Props/Properties_C03.vos Props/Properties_C03.vok Props/Properties_C03.required_
 Props/Properties_C04.vo Props/Properties_C04.glob Props/Properties_C04.v.beautified Props/Properties_C04.required_vo: Props/Properties_C04.v Engine/PositionRep.vo Engine/RepAbs.vo Engine/RepProofs.vo
 Props/Properties_C04.vio: Props/Properties_C04.v Engine/PositionRep.vio Engine/RepAbs.vio Engine/RepProofs.vio
 Props/Properties_C04.vos Props/Properties_C04.vok Props/Properties_C04.required_vos: Props/Properties_C04.v Engine/PositionRep.vos Engine/RepAbs.vos Engine/RepProofs.vos
+Props/Properties_C05.vo Props/Properties_C05.glob Props/Properties_C05.v.beautified Props/Properties_C05.required_vo: Props/Properties_C05.v Gen/Consts.vo Engine/SearchDriver.vo Engine/SearchDriverProofs.vo
+Props/Properties_C05.vio: Props/Properties_C05.v Gen/Consts.vio Engine/SearchDriver.vio Engine/SearchDriverProofs.vio
+Props/Properties_C05.vos Props/Properties_C05.vok Props/Properties_C05.required_vos: Props/Properties_C05.v Gen/Consts.vos Engine/SearchDriver.vos Engine/SearchDriverProofs.vos
 Props/Properties_C07.vo Props/Properties_C07.glob Props/Properties_C07.v.beautified Props/Properties_C07.required_vo: Props/Properties_C07.v Chess/Rules.vo Chess/History.vo Chess/RulesFacts.vo
 Props/Properties_C07.vio: Props/Properties_C07.v Chess/Rules.vio Chess/History.vio Chess/RulesFacts.vio
 Props/Properties_C07.vos Props/Properties_C07.vok Props/Properties_C07.required_vos: Props/Properties_C07.v Chess/Rules.vos Chess/History.vos Chess/RulesFacts.vos
+Props/Properties_C09.vo Props/Properties_C09.glob Props/Properties_C09.v.beautified Props/Properties_C09.required_vo: Props/Properties_C09.v Gen/Consts.vo Engine/SearchDriver.vo Engine/SearchDriverProofs.vo
+Props/Properties_C09.vio: Props/Properties_C09.v Gen/Consts.vio Engine/SearchDriver.vio Engine/SearchDriverProofs.vio
+Props/Properties_C09.vos Props/Properties_C09.vok Props/Properties_C09.required_vos: Props/Properties_C09.v Gen/Consts.vos Engine/SearchDriver.vos Engine/SearchDriverProofs.vos
 Props/Properties_C11.vo Props/Properties_C11.glob Props/Properties_C11.v.beautified Props/Properties_C11.required_vo: Props/Properties_C11.v Engine/Magic.vo Engine/MagicProofs.vo Props/C11Glue.vo Gen/MagicData.vo Props/C11Sweep_R0.vo Props/C11Sweep_R1.vo Props/C11Sweep_R2.vo Props/C11Sweep_R3.vo Props/C11Sweep_R4.vo Props/C11Sweep_R5.vo Props/C11Sweep_R6.vo Props/C11Sweep_R7.vo Props/C11Sweep_B.vo
 Props/Properties_C11.vio: Props/Properties_C11.v Engine/Magic.vio Engine/MagicProofs.vio Props/C11Glue.vio Gen/MagicData.vio Props/C11Sweep_R0.vio Props/C11Sweep_R1.vio Props/C11Sweep_R2.vio Props/C11Sweep_R3.vio Props/C11Sweep_R4.vio Props/C11Sweep_R5.vio Props/C11Sweep_R6.vio Props/C11Sweep_R7.vio Props/C11Sweep_B.vio
 Props/Properties_C11.vos Props/Properties_C11.vok Props/Properties_C11.required_vos: Props/Properties_C11.v Engine/Magic.vos Engine/MagicProofs.vos Props/C11Glue.vos Gen/MagicData.vos Props/C11Sweep_R0.vos Props/C11Sweep_R1.vos Props/C11Sweep_R2.vos Props/C11Sweep_R3.vos Props/C11Sweep_R4.vos Props/C11Sweep_R5.vos Props/C11Sweep_R6.vos Props/C11Sweep_R7.vos Props/C11Sweep_B.vos
